@@ -21,6 +21,7 @@ import (
 	"strings"
 	"sync"
 	"sync/atomic"
+	"time"
 
 	"github.com/influxdata/influxdb/v2/tsdb"
 	"github.com/influxdata/influxdb/v2/tsdb/engine/tsm1"
@@ -1214,11 +1215,149 @@ func stressPrograms(g *gen) (out [][][]jop) {
 	return
 }
 
+// ---------- same-key creation stress (hard assertion, no tolerance) ----------
+//
+// R rounds; in every round G goroutines (4-8), released together by a spin barrier, each
+// WriteMulti ONE value with a distinct timestamp to the same key that does not exist in the hot
+// store (K keys per round, visited in the same order by all goroutines): variants "fresh"
+// (never written), "after-snapshot" (written, then Snapshot() emptied the hot store) and
+// "after-delete" (written, then DeleteRange removed the entry).  At quiescence every acknowledged
+// value must be returned by Values(key) and Size() must grow by exactly G*16+len(key) per key.
+// Concurrent same-key writes with distinct timestamps and no limit are linearisable in the real
+// cache (entry creation is double-checked under the partition lock), so ANY loss is a failing input.
+type jcreate struct {
+	Mode       string `json:"mode"` // create-stress
+	Variant    string `json:"variant"`
+	Rounds     int    `json:"rounds"`
+	Goroutines int    `json:"goroutines_of_failing_round,omitempty"`
+	MaxProcs   int    `json:"gomaxprocs_of_failing_round,omitempty"`
+	Yield      bool   `json:"gosched_before_write_in_failing_round,omitempty"`
+	Round      int    `json:"failing_round,omitempty"`
+	Key        string `json:"key_of_failing_round,omitempty"`
+	Anomalies  int    `json:"anomalous_rounds"`
+	Example    string `json:"first_anomaly,omitempty"`
+	What       string `json:"what"`
+}
+
+func createStress(w *vh.W, variant string, rounds int) {
+	const K = 4
+	c := &jcreate{Mode: "create-stress", Variant: variant, Rounds: rounds,
+		What: "G goroutines released together each WriteMulti{key:[(g+1, float g)]} to the same key absent from the hot store (" + variant + "); afterwards Values(key) must hold all G acknowledged timestamps and Size() must have grown by G*16+len(key)"}
+	oldProcs := runtime.GOMAXPROCS(0)
+	defer runtime.GOMAXPROCS(oldProcs)
+	cache := tsm1.NewCache(0, tsdb.EngineTags{})
+	start := time.Now()
+	for r := 0; r < rounds; r++ {
+		if r >= 300 && time.Since(start) > 25*time.Second {
+			c.Rounds = r
+			break
+		}
+		G := 4 + r%5
+		procs := oldProcs
+		switch (r / 50) % 4 { // GOMAXPROCS variations in blocks of 50 rounds
+		case 1:
+			procs = max(2, oldProcs/2)
+		case 3:
+			procs = min(oldProcs, 4)
+		}
+		if procs != runtime.GOMAXPROCS(0) {
+			runtime.GOMAXPROCS(procs)
+		}
+		yield := r%3 == 1
+		keys := make([]string, K)
+		for i := range keys {
+			keys[i] = fmt.Sprintf("%s-r%d-k%d", variant, r, i)
+		}
+		// per-variant preparation: the key has been seen before but is absent from the hot store
+		switch variant {
+		case "after-snapshot":
+			for _, k := range keys {
+				cache.WriteMulti(map[string][]tsm1.Value{k: fv(100, 1)})
+			}
+			if _, err := cache.Snapshot(); err != nil {
+				c.Anomalies++
+				c.Example = "Snapshot: " + err.Error()
+				break
+			}
+			cache.ClearSnapshot(true)
+		case "after-delete":
+			for _, k := range keys {
+				cache.WriteMulti(map[string][]tsm1.Value{k: fv(100, 1)})
+			}
+			cache.DeleteRange(bkeys(keys), math.MinInt64, math.MaxInt64)
+		}
+		base := cache.Size()
+		errs := make([][]error, G)
+		fs := make([]func(), G)
+		for g := 0; g < G; g++ {
+			g := g
+			errs[g] = make([]error, K)
+			fs[g] = func() {
+				for i, k := range keys {
+					if yield && (g+i)%2 == 0 {
+						runtime.Gosched()
+					}
+					errs[g][i] = cache.WriteMulti(map[string][]tsm1.Value{k: fv(int64(g+1), float64(g))})
+				}
+			}
+		}
+		together(fs...)
+		bad := ""
+		want := base
+		for i, k := range keys {
+			got := map[int64]bool{}
+			for _, v := range cache.Values([]byte(k)) {
+				got[v.UnixNano()] = true
+			}
+			var lost []int64
+			for g := 0; g < G; g++ {
+				if errs[g][i] != nil {
+					bad = fmt.Sprintf("WriteMulti error %v", errs[g][i])
+				} else if !got[int64(g+1)] {
+					lost = append(lost, int64(g+1))
+				}
+			}
+			want += uint64(G*16 + len(k))
+			if len(lost) > 0 && bad == "" {
+				bad = fmt.Sprintf("key %q: acknowledged timestamps %v are not returned by Values (holds %d of %d)", k, lost, len(got), G)
+				c.Key = k
+			}
+		}
+		if sz := cache.Size(); sz != want && bad == "" {
+			bad = fmt.Sprintf("Size()=%d, accounted %d (base %d + %d keys x (%d x 16 + len))", sz, want, base, K, G)
+			c.Key = keys[0]
+		}
+		if bad != "" {
+			c.Anomalies++
+			if c.Example == "" {
+				c.Example, c.Round, c.Goroutines, c.MaxProcs, c.Yield = bad, r, G, procs, yield
+			}
+		}
+		// keep the cache small: drop this round's keys, start the next round from a clean size
+		cache.DeleteRange(bkeys(keys), math.MinInt64, math.MaxInt64)
+		if bad != "" { // the accounting is off after a loss: continue on a fresh cache
+			cache = tsm1.NewCache(0, tsdb.EngineTags{})
+		}
+	}
+	idx := w.Add("{| c_max := 0; c_hist := [] |}", c, false, "")
+	w.Count("create_stress_"+variant+"_anomalous_rounds", fmt.Sprint(min(c.Anomalies, 9)))
+	w.Extra["create_stress_"+variant] = fmt.Sprintf("%d anomalous rounds of %d", c.Anomalies, c.Rounds)
+	if c.Anomalies > 0 {
+		w.Fail(idx, fmt.Sprintf("same-key creation stress (%s): %d of %d rounds lost acknowledged writes or mis-accounted Size; first: round %d, %d goroutines, GOMAXPROCS %d: %s", variant, c.Anomalies, c.Rounds, c.Round, c.Goroutines, c.MaxProcs, c.Example), "")
+	}
+}
+
 func main() {
 	w := vh.New("C09", "From Verif Require Import Base.Prelude Model.C09.\nLocal Open Scope Z_scope.", "case", "check")
-	w.Rule = "hand-picked regression histories first; then random histories on the real tsm1.Cache over keys a/bb/ccc (+ absent zz), timestamps 1..6, value types f/i/s (b,u rarely), maxSize in {0,10,40,66,100,200,1000}: 5-18 ops of WriteMulti (1-3 keys x 0-3 points, duplicates and type conflicts frequent, empty and mixed batches rare) / Values / Snapshot / ClearSnapshot(ok) / DeleteRange (boundary-biased ranges incl. MinInt64/MaxInt64, min>max, repeated and absent keys) / Delete / Size / Keys, followed by a full observation (Size, Values of every key, Keys); 3 fixed stress programs (same-key creation race, conflicting-type creation race, snapshot cycle vs writers/reader) under 600 (thorough: 3000) schedules each and every 4th random case is a concurrent history (2-4 goroutines, <= 8 concurrent ops, 12 schedules, engine locking discipline), every execution checked for linearisability, emitted as prefix ++ found linearisation ++ final observation. Non-trivial (seq): >=1 accepted write and >=1 snapshot/clear/delete op; (conc): at least one pair of ops of different goroutines overlapped in real time. Distinct: distinct Gallina terms."
+	w.Rule = "hand-picked regression histories first; then random histories on the real tsm1.Cache over keys a/bb/ccc (+ absent zz), timestamps 1..6, value types f/i/s (b,u rarely), maxSize in {0,10,40,66,100,200,1000}: 5-18 ops of WriteMulti (1-3 keys x 0-3 points, duplicates and type conflicts frequent, empty and mixed batches rare) / Values / Snapshot / ClearSnapshot(ok) / DeleteRange (boundary-biased ranges incl. MinInt64/MaxInt64, min>max, repeated and absent keys) / Delete / Size / Keys, followed by a full observation (Size, Values of every key, Keys); a same-key creation stress (3 variants: fresh key / after Snapshot / after DeleteRange; 1000 rounds each, thorough 10000; 4-8 goroutines released by a barrier write distinct timestamps to 4 absent keys per round under GOMAXPROCS/Gosched variations; every acknowledged value must be read back and Size must match; zero tolerance), 3 fixed stress programs (same-key creation race, conflicting-type creation race, snapshot cycle vs writers/reader) under 600 (thorough: 3000) schedules each and every 4th random case is a concurrent history (2-4 goroutines, <= 8 concurrent ops, 12 schedules, engine locking discipline), every execution checked for linearisability, emitted as prefix ++ found linearisation ++ final observation. Non-trivial (seq): >=1 accepted write and >=1 snapshot/clear/delete op; (conc): at least one pair of ops of different goroutines overlapped in real time. Distinct: distinct Gallina terms."
 	var rc jcase
 	if w.ReplayCase(&rc) {
+		var rs jcreate
+		if w.ReplayCase(&rs); rs.Mode == "create-stress" {
+			createStress(w, rs.Variant, max(rs.Rounds, 1000))
+			w.Finish()
+			return
+		}
 		var rp jprobe
 		if w.ReplayCase(&rp); rp.Mode == "probe" {
 			probe(w, rp.Probe)
@@ -1238,6 +1377,13 @@ func main() {
 		if w.Len() < w.N {
 			runSeq(w, c)
 		}
+	}
+	rounds := 1000
+	if w.N >= 5000 {
+		rounds = 10000
+	}
+	for _, variant := range []string{"fresh", "after-snapshot", "after-delete"} {
+		createStress(w, variant, rounds)
 	}
 	for _, name := range []string{"init-race", "write-delete-race", "limit-race"} {
 		probe(w, name)
